@@ -1,7 +1,7 @@
 (* C11 — deciding obligations of the codec core (proof part of the property; the per-class part is explored
    by vf/checks/c11.py).  Statements only, closed by the lemmas proved in Codec/JsonMemoProofs.v. *)
 From Coq Require Import ZArith List Bool String.
-From VF Require Import Codec.JsonMemo Codec.JsonMemoProofs.
+From VF Require Import Codec.JsonMemo Codec.JsonMemoProofs Codec.KeyPath Codec.KeyPathProofs.
 Import ListNotations.
 
 (* reading back what the encoder wrote gives the value, for every finite value and every choice of by-key classes;
@@ -80,6 +80,38 @@ Theorem C11_qid_mixed_trans_refuted : exists a b c,
 Proof. exact qid_mixed_trans_refuted. Qed.
 Print Assumptions C11_qid_mixed_trans_refuted.
 
+(* ---------- measurement keys inside documents (Codec/KeyPath.v): a key field is written as the components joined by
+   the separator and read by MeasurementKey.parse_serialized ---------- *)
+
+(* the path itself comes back (not only the joined string, which is all that MeasurementKey.__eq__ looks at) *)
+Theorem C11_key_parse_str : forall k, key_wf k = true -> key_parse (key_str k) = k.
+Proof. exact key_parse_str. Qed.
+Print Assumptions C11_key_parse_str.
+
+(* a key inside any number of enclosing scopes survives with every scope kept apart *)
+Theorem C11_key_roundtrip_nested : forall p k, forallb no_sep p = true -> key_wf k = true ->
+  key_roundtrip (key_prefix p k) = key_prefix p k /\
+  List.length (k_path (key_roundtrip (key_prefix p k))) = (List.length p + List.length (k_path k))%nat.
+Proof. exact key_roundtrip_nested. Qed.
+Print Assumptions C11_key_roundtrip_nested.
+
+(* every key string, whatever it is, is written back unchanged after being parsed (old documents keep their text) *)
+Theorem C11_key_str_parse : forall s, key_str (key_parse s) = s.
+Proof. exact key_str_parse. Qed.
+Print Assumptions C11_key_str_parse.
+
+(* on the domain, equality of the joined strings (what the implementation compares and hashes) is structural equality *)
+Theorem C11_key_eq_structural : forall a b, key_wf a = true -> key_wf b = true ->
+  (key_eq_impl a b = true <-> a = b).
+Proof. exact key_eq_impl_structural. Qed.
+Print Assumptions C11_key_eq_structural.
+
+(* kept at full strength: a path entry containing the separator (accepted by the constructor) does not come back,
+   although the value read is == to the one written; witness replayed on the implementation by the check *)
+Theorem C11_key_roundtrip_refuted : exists k, key_roundtrip k <> k /\ key_eq_impl (key_roundtrip k) k = true.
+Proof. exact key_roundtrip_refuted. Qed.
+Print Assumptions C11_key_roundtrip_refuted.
+
 (* ---------- non-vacuity ---------- *)
 Open Scope string_scope.
 Definition ex_bk (t : string) : bool := String.eqb t "FrozenCircuit".
@@ -124,3 +156,8 @@ Proof. reflexivity. Qed.
 
 Example C11_example_periodic : periodic_eqb (7, 2)%Z (-1, 2)%Z = true /\ periodic_eqb (7, 2)%Z (0, 2)%Z = false.
 Proof. split; reflexivity. Qed.
+
+(* the hypotheses of the key theorems are satisfiable: a key two scopes deep *)
+Example C11_example_key : key_wf (MKey ["a"; "b"] "m") = true /\ key_str (MKey ["a"; "b"] "m") = "a:b:m" /\
+  key_parse "a:b:m" = MKey ["a"; "b"] "m" /\ key_parse "m" = MKey [] "m" /\ key_parse ":" = MKey [""] "".
+Proof. repeat split; reflexivity. Qed.
